@@ -106,7 +106,27 @@ func (p *planner) plan() (shared.SQLRequestPlanner, error) {
 		ClickhouseRequestPlanner: p.samplesPlanner,
 		isMatrix:                 p.script.StrSelector == nil,
 	}*/
-	return p.samplesPlanner, nil
+	return &withCachesResetPlanner{
+		Main:   p.samplesPlanner,
+		Caches: []**sql.With{&p.fpCache, &p.labelsCache},
+	}, nil
+}
+
+// withCachesResetPlanner empties the plan-wide WITH caches before every Process call. The
+// caches let the stages of ONE request share the fingerprint / labels sub-selects; they are
+// filled while the request is built. A plan that is processed again (live tail) must not
+// see the sub-selects of the previous request: they carry its time bounds, and the
+// by/without stage would build `labels_N` from the cached `labels_N` itself.
+type withCachesResetPlanner struct {
+	Main   shared.SQLRequestPlanner
+	Caches []**sql.With
+}
+
+func (w *withCachesResetPlanner) Process(ctx *shared.PlannerContext) (sql.ISelect, error) {
+	for _, c := range w.Caches {
+		*c = nil
+	}
+	return w.Main.Process(ctx)
 }
 
 func (p *planner) planMetrics15Shortcut(script any) error {
